@@ -260,6 +260,26 @@ def mon_delivery(events, steps):
     return None
 
 
+def mon_cancel(events, steps):
+    """C13: a request cancelled by its caller ends at once, as cancelled - in whatever phase it was (queued, waiting for an
+    acknowledgement, waiting for its response); it never keeps running, and never returns a response afterwards."""
+    en = ends(steps)
+    for i, e in enumerate(events):
+        if e[0] != "cancel":
+            continue
+        rid = e[1]
+        if rid in en and en[rid][0] < i:
+            continue                      # already over
+        if not any(ev[0] == "issue" and ev[1] == rid for ev in events[:i]):
+            continue
+        if rid not in en:
+            return "request %d was cancelled by its caller (event %d) but never ended" % (rid, i)
+        if en[rid][0] != i or en[rid][1] != "CANCELLED":
+            return ("request %d was cancelled by its caller at event %d but ended at event %d as %s"
+                    % (rid, i, en[rid][0], en[rid][1]))
+    return None
+
+
 def mon_close(events, steps):
     """C20: after close (no reset in progress) everything ends within the ACK wait; new requests refused at once;
     connection loss reported once per loss (and not during a reset)."""
